@@ -282,17 +282,38 @@ def rule_config(ctx):
     ch = p.cls("indi.transport.client.tcp.ConnectionHandler")
     init = ch.methods["__init__"]
     TH = "max_buffer_size_before_frontal_cleanup"
+    Bc = B.buf_cls(p)
+
+    def threshold_of(it, holder):
+        """The threshold the buffer of a constructed object ends up with (read from the object, however it was set)."""
+        return holder.attrs.get(TH) if isinstance(holder, Obj) else None
+
+    def built(fb):
+        """ConnectionHandler(reader, writer, callback, for_blobs=fb) by its real constructor; the buffer by its own."""
+        out = []
+
+        def run(it):
+            from ..absint import Frame
+            o = it.apply(Cls(ch), [Term("param", "reader"), Term("param", "writer"), Term("param", "callback")], {"for_blobs": Const(fb)}, [], None, Frame(None, ch.module, {}), False)
+            bufs = [v for v in (o.attrs.values() if isinstance(o, Obj) else []) if isinstance(v, Obj) and v.cls is Bc]
+            out.append(threshold_of(it, bufs[0]) if len(bufs) == 1 else "no-buffer")
+            return Const(None)
+
+        try:
+            explore(p, run, {"inline": lambda fi, node: fi.cls in (ch, Bc) or fi.name in ("all_message_classes", "tag_name"), "instantiate": lambda ci: ci in (ch, Bc), "foreign_model": B.stringio_model})
+        except Undecided as ex:
+            return None, str(ex)
+        return out, None
+
     for fb, expect_none in ((True, True), (False, False)):
-        paths = run_method(p, init, self_val=Term("param", "self", hint=ch), args=[Term("param", "reader"), Term("param", "writer"), Term("param", "callback")], kwargs={"for_blobs": Const(fb)})
-        ok = len(paths) == 1
-        for pa in paths:
-            st = [e for e in pa.events if e.kind == "store" and e.data.get("attr") == TH]
-            bufv = [e.data["value"] for e in pa.events if e.kind == "store" and e.data.get("attr") == "buffer" and show(e.data["base"]) == "self"]
-            if expect_none:
-                if len(st) != 1 or not (isinstance(st[0].data["value"], Const) and st[0].data["value"].v is None) or not bufv or st[0].data["base"] is not bufv[-1]:
-                    ok = False
-            elif st:
-                ok = False
+        vals, why = built(fb)
+        if vals is None:
+            ctx.undecided("C08.CONFIG", f"{init.short}[for_blobs={fb}]", f"the connection handler could not be constructed abstractly: {why}", fi=init)
+            continue
+        if expect_none:
+            ok = bool(vals) and all(isinstance(v, Const) and v.v is None for v in vals)
+        else:
+            ok = bool(vals) and all(isinstance(v, Const) and isinstance(v.v, int) and not isinstance(v.v, bool) and v.v > 0 for v in vals)
         ctx.check(ok, "C08.CONFIG", f"{init.short}[for_blobs={fb}]", "threshold disabled iff for_blobs", ("the BLOB connection keeps the junk-recovery threshold: a payload longer than it is discarded as junk" if fb else "the control connection disables the junk-recovery threshold"), fi=init, text=f"threshold:{fb}")
     # default argument
     a = init.node.args
@@ -333,10 +354,21 @@ def rule_config(ctx):
         if "blob_connection.connect" not in stores.get("blob_connection_handler", "") or "control_connection.connect" not in stores.get("control_connection_handler", ""):
             ok = False
     ctx.check(ok, "C08.CONFIG", st.short, "for_blobs=True for the BLOB connection only", "Client.start does not request the disabled threshold for exactly the BLOB connection", fi=st, text="start")
-    binit = B.buf_cls(p).methods["__init__"]
-    paths = run_method(p, binit)
-    ok = all(any(e.kind == "store" and e.data.get("attr") == TH and isinstance(e.data["value"], Const) and isinstance(e.data["value"].v, int) and e.data["value"].v > 0 for e in pa.events) for pa in paths)
-    ctx.check(ok, "C08.CONFIG", binit.short, "default threshold is a positive integer", "the default junk-recovery threshold is not a positive integer", fi=binit, text="default-threshold")
+    binit = Bc.methods["__init__"]
+    vals = []
+
+    def run_default(it):
+        from ..absint import Frame
+        o = it.apply(Cls(Bc), [], {}, [], None, Frame(None, Bc.module, {}), False)
+        vals.append(threshold_of(it, o))
+        return Const(None)
+
+    try:
+        explore(p, run_default, {"inline": lambda fi, node: fi.cls is Bc or fi.name in ("all_message_classes", "tag_name"), "instantiate": lambda ci: ci is Bc, "foreign_model": B.stringio_model})
+        ok = bool(vals) and all(isinstance(v, Const) and isinstance(v.v, int) and not isinstance(v.v, bool) and v.v > 0 for v in vals)
+        ctx.check(ok, "C08.CONFIG", binit.short, "default threshold is a positive integer", "the default junk-recovery threshold is not a positive integer", fi=binit, text="default-threshold")
+    except Undecided as ex:
+        ctx.undecided("C08.CONFIG", binit.short, f"Buffer() could not be constructed abstractly: {ex}", fi=binit)
 
 
 def rule_inbound(ctx):
